@@ -138,27 +138,35 @@ def rule_CF(ctx, tier):
     # an error propagated with `?` (from a helper that returns Result) is an Err return too
     errs += [bb for bb, t_ in v.calls() if (call_target(t_) or "").endswith("::from_residual") and t_.get("dest") == [0]]
     oks = [bb for bb in v.rpo() for s in v.blocks[bb]["s"] if s["k"] == "assign" and s["d"] == [0] and s["rv"]["k"] == "agg" and s["rv"].get("variant") == "Ok"]
-    def eq_facts(bb):
-        out = {}
+    ALLV = {"Invalid", "Multiple", "UserPass", "CookieFile"}
+
+    def auth_possible(bb):
+        """auth methods consistent with what is known at bb: comparisons with a variant (== / !=, either spelling) and match arms"""
+        from .rulekit import rel_of_term
+        poss = set(ALLV)
         for f in facts_at(ctx, v, bb):
-            if f[0] == "truth" and has_call(f[1], "PartialEq") and has_call(f[1], "get_auth_method"):
-                for t in og.walk(f[1]):
-                    if isinstance(t, tuple) and t and t[0] == "agg" and t[1].endswith("AuthMethod"):
-                        out[t[2]] = f[2]
-        return out
-    seen = set()
+            if f[0] == "truth":
+                for op, l, r in rel_of_term(f[1], f[2]):
+                    r_ = og.strip(r)
+                    if op in ("Eq", "Ne") and has_call(l, "get_auth_method") and isinstance(r_, tuple) and r_ and r_[0] == "agg" and r_[1].endswith("AuthMethod"):
+                        poss &= ({r_[2]} if op == "Eq" else ALLV - {r_[2]})
+            elif f[0] == "variant" and has_call(f[1], "get_auth_method") and f[2] in ALLV:
+                poss &= {f[2]}
+            elif f[0] == "variant_in" and has_call(f[1], "get_auth_method"):
+                poss &= set(f[2])
+        return poss
+    refused = set()
     for bb in errs:
-        e = eq_facts(bb)
-        for k2, val in e.items():
-            if val is True:
-                seen.add(k2)
-    if {"Invalid", "Multiple"} <= seen:
+        p_ = auth_possible(bb)
+        if p_ <= {"Invalid", "Multiple"}:
+            refused |= p_
+    if {"Invalid", "Multiple"} <= refused:
         rr.ok("verify: Err for AuthMethod::Invalid and AuthMethod::Multiple")
     else:
-        rr.fail("verify:auth-not-refused:%s" % ",".join(sorted({"Invalid", "Multiple"} - seen)), "Config::verify does not return Err for auth method(s) %s" % sorted({"Invalid", "Multiple"} - seen), where=v.span)
+        rr.fail("verify:auth-not-refused:%s" % ",".join(sorted({"Invalid", "Multiple"} - refused)), "Config::verify does not return Err for auth method(s) %s" % sorted({"Invalid", "Multiple"} - refused), where=v.span)
     for bb in oks:
-        e = eq_facts(bb)
-        if e.get("Invalid") is False and e.get("Multiple") is False:
+        p_ = auth_possible(bb)
+        if not (p_ & {"Invalid", "Multiple"}):
             rr.ok("verify: Ok only with exactly one auth method")
         else:
             rr.fail("verify:ok-without-auth-check", "Config::verify can return Ok without having excluded Invalid/Multiple auth", where=v.line_of(bb))
@@ -256,7 +264,7 @@ def rule_CF(ctx, tier):
     else:
         rr.fail("verify-rewrites:%s" % ",".join(extra), "Config::verify changes the configured value of %s: the tower then runs with a value other than the one the operator set (and the one the documentation promises)" % ", ".join("`%s`" % f for f in extra), where=v.span)
     # unknown network => Err
-    unk = [bb for bb in errs if not eq_facts(bb) or all(x is False for x in eq_facts(bb).values())]
+    unk = [bb for bb in errs if not (auth_possible(bb) & {"Invalid", "Multiple"})]
     if unk:
         rr.ok("unknown network refused")
     else:
@@ -286,4 +294,18 @@ def rule_CF(ctx, tier):
     else:
         rr.fail("main:verify-ignored", "teosd::main does not terminate when Config::verify returns Err", where=m.span)
     rr.require_floor(30, "CF instances")
+    return rr
+
+
+def rule_CF_switches(ctx, tier):
+    """the clause of CF that a restart depends on (claimed under C03): `overwrite_key` and `force_update` reach main only from
+    the command line, so a restart on the same data directory cannot regenerate the tower key or skip unprocessed blocks
+    because of something the configuration file says (main's own guard on the switch is OR3's `key-regenerated`)"""
+    rr = rule_CF(ctx, tier)
+    keep = ("patch:one-shot", "patch:writes:overwrite_key", "patch:writes:force_update", "anchor-missing", "floor:")
+    rr.findings = [f for f in rr.findings if f.key.startswith(keep)]
+    rr.rule = "CFs"
+    for f in rr.findings:
+        f.rule = "CFs"
+    rr.title = "destructive start-up switches (overwrite_key, force_update) are command-line only"
     return rr
